@@ -43,6 +43,11 @@ package sio
 //@   ensures cap(acc) == 0 || fresh(acc)
 //@   loop 0 invariant[C14] forall i int :: 0 <= i && i < len(acc) ==> (acc[i] in c.Machines) && acc[i] != "timers" && acc[i] != "captain"
 //@   loop 0 invariant cap(acc) == 0 || fresh(acc)
+// ... and ALL of them: a broadcast misses no ordinary machine. pos(mid) is the
+// position at which mid was appended (the Skolem function of "mid is in acc").
+//@   loop 0 keyfn pos = len(acc)
+//@   loop 0 invariant[C14] allin: forall k string :: seen(0)[k] && k != "timers" && k != "captain" ==> 0 <= pos(k) && pos(k) < len(acc) && acc[pos(k)] == k
+//@   ensures[C14] everyone: forall k string :: (k in c.Machines) && k != "timers" && k != "captain" ==> 0 <= pos(k) && pos(k) < len(acc) && acc[pos(k)] == k
 
 //@ func (*Crew).toMachines returns mids, err
 //@   safety C14
@@ -55,6 +60,9 @@ package sio
 //@                        ==> len(mids) == len(as(as(msg, map[string]interface{})["to"], []interface{}))
 //@   ensures[C14] listelems: is(msg, map[string]interface{}) && ("to" in as(msg, map[string]interface{})) && is(as(msg, map[string]interface{})["to"], []interface{})
 //@                        ==> forall j int :: 0 <= j && j < len(mids) && is(as(as(msg, map[string]interface{})["to"], []interface{})[j], string) ==> mids[j] == as(as(as(msg, map[string]interface{})["to"], []interface{})[j], string)
+// An unaddressed message (no map, no "to", or "*") is for every ordinary machine of the crew.
+//@   ensures[C14] broadcast: !is(msg, map[string]interface{}) || !("to" in as(msg, map[string]interface{})) || (is(as(msg, map[string]interface{})["to"], string) && as(as(msg, map[string]interface{})["to"], string) == "*")
+//@                        ==> forall k string :: (k in c.Machines) && k != "timers" && k != "captain" ==> exists j int :: 0 <= j && j < len(mids) && mids[j] == k
 //@   loop 0 invariant fresh(mids) && len(mids) == len(vv)
 //@   loop 0 invariant[C14] forall j int :: 0 <= j && j <= rangeindex && is(vv[j], string) ==> mids[j] == as(vv[j], string)
 
